@@ -735,6 +735,24 @@ def check_bsearch(read):
                           "Model/LoopIter.lean `bsearch`")
 
 
+CHARSET_REL = "read-fonts/src/tables/postscript/charset.rs"
+CHARSET_TEXTS = [
+    "while gid >= self.end { let (first, end) = next_range(&mut self.ranges)?; self.prev_end = self.end; "
+    "self.first = first; self.end = self.prev_end.checked_add(end)?; }",
+    "fn next_range<T: CharsetRange>(ranges: &mut std::slice::Iter<T>) -> Option<(u32, u32)> { ranges .next() "
+    ".map(|range| (range.first(), range.n_left() + 1)) }",
+    "ranges: std::slice::Iter<'a, T>,",
+]
+
+
+def check_charset(read):
+    """Model/LoopIter.lean `charsetSeek` transcribes the range-seeking loop of the CFF charset iterator"""
+    flat = " ".join(B.strip_comments(read(CHARSET_REL)).split())
+    for t in CHARSET_TEXTS:
+        if t not in flat:
+            raise Unsupported(f"{CHARSET_REL} no longer reads `{t[:90]}…` (Model/LoopIter.lean charsetSeek transcribes it)")
+
+
 def check_ring_sites(read):
     """Model/EdgeRing.lean (hand-written) transcribes these code sites; they are the only writers of edge_next_ix"""
     writes = 0
@@ -759,6 +777,7 @@ def generate(read):
     check_contour_fns(B.strip_comments(read(AH + "outline.rs")))
     check_ring_sites(read)
     check_bsearch(read)
+    check_charset(read)
     L_defs, header, stats = [], [], []
     for spec in LOOPS:
         src = B.strip_comments(read(spec["file"]))
